@@ -73,6 +73,16 @@ CLAIMED = {
              "are enumerated concretely inside each path (bounded enumeration); redefinition without #undef excluded; RX limited to ASCII",
         ref="DESIGN.md section 5 C08", rx=True,
     ),
+    "C03": dict(
+        text="Totality and bounded work of indexing over bounded families of texts selected by solver-forked indices: all documents "
+             "of <=2/3 lines over 100 statement forms in free, preprocessed and fixed form; all <=3-line documents over 34 "
+             "(partly ill-formed) directive forms; every prefix of valid sample programs cut at every column, through the real "
+             "server; every single-token insertion / character deletion at every column. Assertion: no exception, no failure "
+             "message, index queryable, get_line calls linear in the line count, wall-clock guard.",
+        note="texts are indexed concretely once chosen (bounded enumeration through solver forking); tables instead of arbitrary "
+             "characters; in-memory disk",
+        ref="DESIGN.md section 5 C03",
+    ),
 }
 
 NOT_APPLICABLE = {
